@@ -45,6 +45,19 @@ WRecNoTie(B, fin, i, HV, HF) ==
         xf == Mcs(B, fin[i], HF)
     IN  \A b \in xf : \E a \in xv : a \subseteq b
 
+(* wrong variant: only the minimum-CARDINALITY correction sets of a layer   *)
+(* are considered (inclusion-minimal sets of larger size are dropped)       *)
+RECURSIVE WRecMinCard(_, _, _, _, _)
+WRecMinCard(B, fin, i, HV, HF) ==
+    LET xv0 == Mcs(B, fin[i], HV)
+        xf0 == Mcs(B, fin[i], HF)
+        xv == IF xv0 = {} THEN {} ELSE MinCardSets(xv0)
+        xf == IF xf0 = {} THEN {} ELSE MinCardSets(xf0)
+    IN  IF ~(\A b \in xf : \E a \in xv : a \subseteq b) THEN FALSE
+        ELSE \A xi \in xv \cap xf :
+                IF i = 1 THEN FALSE
+                ELSE WRecMinCard(B, fin, i - 1, Fix(B, fin[i], HV, xi), Fix(B, fin[i], HF, xi))
+
 (* wrong variant: when a layer has several tied falsification sets it is   *)
 (* enough that SOME tie succeeds below (models "only the first tie is      *)
 (* followed correctly"); differs from the definition exactly on inputs     *)
@@ -120,6 +133,7 @@ AlgoZ(B, q, WS, weakly)           == AlgoDecide(B, q, WS, weakly, ZRec)
 AlgoW(B, q, WS, weakly)           == AlgoDecide(B, q, WS, weakly, WRec)
 AlgoWNoTie(B, q, WS, weakly)      == AlgoDecide(B, q, WS, weakly, WRecNoTie)
 AlgoWAnyTie(B, q, WS, weakly)     == AlgoDecide(B, q, WS, weakly, WRecAnyTie)
+AlgoWMinCard(B, q, WS, weakly)    == AlgoDecide(B, q, WS, weakly, WRecMinCard)
 AlgoLex(B, q, WS, weakly)         == AlgoDecide(B, q, WS, weakly, LexRec)
 AlgoLexAllPairs(B, q, WS, weakly) == AlgoDecide(B, q, WS, weakly, LexRecAllPairs)
 AlgoLexLeq(B, q, WS, weakly)      == AlgoDecide(B, q, WS, weakly, LexRecLeq)
